@@ -5,8 +5,18 @@ Enumerated (all exhaustively, no sampling):
      tree's doc/generate/mjcf_schema.py) x every attribute of the child x its value menu
      (every keyword of every enum; one non-default value per arity for numbers): the attribute is
      set on a minimal valid scaffold -- directly, inside a two-level nested default class
-     (<default><default class=c1><default class=c2>) used by an instance, and inside <frame> /
+     (<default><default class=c1><default class=c2>) used by an instance of every element kind that
+     takes its defaults from that class element (<default><tendon/>: a spatial and a fixed tendon;
+     <default><equality/>: one constraint of each of the 7 kinds), and inside <frame> /
      <replicate> / <worldbody> where the schema allows the child there;
+     in the default-class context the instance also overrides the class value: with the schema's
+     global default, and -- for every numeric attribute with more than one component, for EVERY
+     arity form of its value menu as the class value -- with each value that shares components with
+     the class value: the first k components equal and the rest different (quick k in {1, n-1},
+     thorough every k), the last k equal (quick k=1), and the shorter k-component form made of the
+     class value's first k components (quick: the shortest form the schema admits);  a failing
+     override is re-run with an empty class: if it fails in the same arrays without the class it is
+     reported under the plain attribute's key (one key per root cause);
   B. alphabet models: all forests <= N bodies x joint menu, with keyframes, builtin textures,
      inline meshes (vertices that need > 6 digits), nested defaults, frames; also loaded from a VFS
      file and saved with mj_saveLastXML; also specs edited through the mjSpec C API (mjs_attach);
@@ -38,7 +48,9 @@ META = dict(
     technique="exhaustive enumeration over the MJCF schema (every element edge x attribute x value menu x context) "
               "+ model alphabet + shipped corpus; differential oracle compile/save/parse/compile",
     text="Every (element, attribute) of mjcf.schema is set to non-default values on a minimal valid scaffold, directly, "
-         "through a two-level nested default class and inside frame/replicate/worldbody; each document is compiled, "
+         "through a two-level nested default class (with an instance that inherits it and instances that override it by "
+         "the global default and by every value sharing leading/trailing components or a shorter arity form with the class "
+         "value) and inside frame/replicate/worldbody; each document is compiled, "
          "saved at full float precision with the tree's writer, re-parsed and re-compiled; all mjModel arrays, options, "
          "statistics and visual settings must be equal and the saved text must be a fix-point. The same oracle runs "
          "on an alphabet of kinematic forests with keyframes/assets/defaults/frames (also through mj_loadXML + "
@@ -202,19 +214,59 @@ def build_doc(parent, child, ctx, setting=None):
         return None
     doc, t, par = r
     if ctx == "default":
-        # an instance that uses the nested class, so that the class attribute reaches the model
+        # instances that use the nested class, so that the class attribute reaches the model (one per element kind
+        # that takes its defaults from this class element)
         inst_child = child if parent == "default" else parent
-        inst_parent = G.canonical_parent(inst_child, "main")
-        if inst_parent is not None:
-            r2 = G.scaffold(inst_parent, inst_child, "main", doc)
+        for inst_parent, kind in instance_kinds(inst_child):
+            r2 = G.scaffold(inst_parent, kind, "main", doc)
             if r2 is not None:
                 _, t2, _ = r2
-                names = {a.name for a in G.attrs_of(inst_child)}
+                names = {a.name for a in G.attrs_of(kind)}
                 if "class" in names:
                     t2.set("class", "c2")
     if setting is not None:
         G.apply_setting(t, setting)
     return doc
+
+
+def instance_kinds(child):
+    """(parent, element) pairs of the main-context elements that take their class defaults from the default-context
+    element `child`: the element itself where it also exists outside <default>; for the default-only elements
+    (<default><tendon/>, <default><equality/>) every child kind of the section of the same name (spatial and fixed;
+    connect, weld, joint, tendon, flex, flexvert, flexstrain)."""
+    par = G.canonical_parent(child, "main")
+    if par is not None:
+        return [(par, child)]
+    S, sc = G.schema()
+    sec = G.xml_tag(child)
+    if sec in sc.elements:
+        return [(sec, ch.name) for ch in sc.elements[sec].children()]
+    return []
+
+
+def class_instances(doc, attr=None):
+    """Nodes of the document that use the nested class c2 (optionally: and admit attribute `attr`)."""
+    out = []
+    for n in doc.nodes():
+        if n.tag != "default" and n.get("class") == "c2":
+            if attr is None or attr in _admitted(n.tag):
+                out.append(n)
+    return out
+
+
+_ADM = {}
+
+
+def _admitted(tag):
+    """Attribute names admitted by any schema element spelled <tag> (instances are found by tag)."""
+    if tag not in _ADM:
+        S, sc = G.schema()
+        s = set()
+        for name, el in sc.elements.items():
+            if el.xml_name() == tag:
+                s.update(a.name for a in G.attrs_of(name))
+        _ADM[tag] = s
+    return _ADM[tag]
 
 
 def run_edge(lib, vfs, part, parent, child, ctx, enum_all):
@@ -245,6 +297,7 @@ def _edge_attrs(lib, vfs, part, parent, child, ctx, enum_all, edge, rb):
         name = "%s.%s%s" % (child, c["attr"], "[default]" if ctx == "default" else "")
         nload = 0
         lasterr = "no candidate value"
+        done = []
         for setting in c["cands"]:
             d = build_doc(parent, child, ctx, setting)
             xml = d.xml()
@@ -266,22 +319,127 @@ def _edge_attrs(lib, vfs, part, parent, child, ctx, enum_all, edge, rb):
                 dv = c["default"]
                 dv = " ".join("%.17g" % x for x in dv) if isinstance(dv, tuple) else ("%.17g" % dv if isinstance(dv, float) else str(dv))
                 d2 = build_doc(parent, child, ctx, setting)
-                inst = [n for n in d2.nodes() if n.get("class") == "c2"]
+                inst = class_instances(d2, c["attr"])
                 if inst:
-                    inst[-1].set(c["attr"], dv)
+                    for n in inst:
+                        n.set(c["attr"], dv)
                     xml2 = d2.xml()
                     r2 = roundtrip(lib, xml2, vfs)
                     if r2.stage != "load":
                         part.count(1, key=(parent, child, ctx, c["attr"], "override-with-global-default"))
                         judge(part, r2, name + " overridden by its global default on the instance",
                               "%s: class value %s, instance sets the global default %s" % (name, setting, dv), {"xml": xml2, "edge": edge})
+            done.append(setting)
             if not (c["enum"] and enum_all):
                 break
+        if ctx == "default" and parent == "default" and c["type"] in ("double", "float", "int"):
+            nload += _component_overrides(lib, vfs, part, parent, child, ctx, c, name, edge, done)
         if nload == 0:
             part.add("attributes_unscaffolded")
             part["extra"].setdefault("unscaffolded", []).append("%s in %s: %s" % (name, edge, lasterr[:90]))
         else:
             part.add("attributes_covered")
+
+
+def _alt(tok, is_int):
+    """A different valid number of the same sign and order of magnitude (keeps lo < hi of the range-like menus)."""
+    if is_int:
+        return str(int(tok) + 1)
+    x = float(tok)
+    return "%.17g" % (x * 0.875 if x != 0 else 0.125)
+
+
+def component_variants(toks, lo, is_int, full):
+    """Instance values that share components with the class value `toks` (n >= 2 components):
+      prefix k : first k components equal to the class value, the other n-k different;
+      suffix k : last k components equal, the first n-k different;
+      short k  : the k-component form (lo <= k < n) made of the first k components of the class value -- for attributes
+                 whose reader expands or keeps the unspecified components (springlength "a" = "a a"; size, friction,
+                 solimp, gear, ... keep the inherited tail).
+    quick: k in {1, n-1} for prefix, k = 1 for suffix, the shortest admitted form for short; thorough (full): every k."""
+    n = len(toks)
+    alt = [_alt(t, is_int) for t in toks]
+    ks = range(1, n)
+    pk = list(ks) if full else sorted({1, n - 1})
+    sk = list(ks) if full else [1]
+    hk = [k for k in ks if k >= max(lo, 1)]
+    if not full:
+        hk = hk[:1]
+    out = []
+    for k in pk:
+        out.append(("prefix", k, " ".join(toks[:k] + alt[k:])))
+    for k in sk:
+        out.append(("suffix", k, " ".join(alt[:n - k] + toks[n - k:])))
+    for k in hk:
+        out.append(("short", k, " ".join(toks[:k])))
+    return out
+
+
+def _component_overrides(lib, vfs, part, parent, child, ctx, c, name, edge, done):
+    """Default-class context, numeric attributes with more than one component: EVERY arity form of the value menu is the
+    class value (the main loop stops at the first form that loads), and for every class value with >= 2 components the
+    instance overrides it with each value of component_variants().  The writer decides per attribute how many components
+    to print and whether the instance equals its class; both decisions must look at all components of both."""
+    a = [x for x in G.projected_attrs(child) if x.name == c["attr"]]
+    if not a:
+        return 0
+    lo, hi = G.arity(a[0])
+    if hi is not None and hi < 2:
+        return 0
+    is_int = c["type"] == "int"
+    nload = 0
+    for setting in c["cands"]:
+        sets, dels = setting
+        if dels or len(sets) != 1 or sets[0][0] != c["attr"]:
+            continue                     # companion settings: the attribute is not set alone
+        toks = sets[0][1].split()
+        if len(toks) < 2:
+            continue
+        if setting not in done:
+            d = build_doc(parent, child, ctx, setting)
+            xml = d.xml()
+            r = roundtrip(lib, xml, vfs)
+            part.count(1)
+            if r.stage == "load":
+                part.add("class_values_not_loadable")
+                continue
+            nload += 1
+            part.count(0, key=(parent, child, ctx, c["attr"], repr(setting)))
+            part.add("class_values_of_further_arity")
+            judge(part, r, name, "%s in %s with %s" % (name, edge, setting), {"xml": xml, "edge": edge, "setting": setting})
+        for kind, k, val in component_variants(toks, lo, is_int, _OPTS["full_overrides"]):
+            d2 = build_doc(parent, child, ctx, setting)
+            inst = class_instances(d2, c["attr"])
+            if not inst:
+                part.add("component_overrides_without_instance")
+                break
+            for n in inst:
+                n.set(c["attr"], val)
+            xml2 = d2.xml()
+            r2 = roundtrip(lib, xml2, vfs)
+            part.count(1)
+            if r2.stage == "load":
+                part.add("component_overrides_not_loadable")
+                part["extra"].setdefault("component_overrides_rejected", []).append("%s class %s instance %s: %s" % (name, sets[0][1], val, norm_msg(r2.msg)[:80]))
+                continue
+            part.add("component_overrides_" + kind)
+            part.count(0, key=(parent, child, ctx, c["attr"], "override", sets[0][1], kind, k))
+            kp = "%s overridden on the instance by a value sharing components with the class value" % name
+            if r2.bad and not r2.perm:
+                # control experiment: the same instance value with an empty class.  If that fails in the same arrays the
+                # class is not involved and the case belongs to the plain attribute's key (one key per root cause)
+                d3 = build_doc(parent, child, ctx)
+                for n in class_instances(d3, c["attr"]):
+                    n.set(c["attr"], val)
+                r3 = roundtrip(lib, d3.xml(), vfs)
+                part.count(1)
+                if r3.stage == "done" and r3.bad and [f for f, _ in r3.bad] == [f for f, _ in r2.bad]:
+                    part.add("component_overrides_failing_without_class_too")
+                    kp = "%s.%s" % (child, c["attr"])
+            judge(part, r2, kp,
+                  "%s: class value %s, instance sets %s (%s %d of %d components)" % (name, sets[0][1], val, kind, k, len(toks)),
+                  {"xml": xml2, "edge": edge, "class_value": sets[0][1], "instance_value": val})
+    return nload
 
 
 # ------------------------------------------------------------------ B: alphabet models
@@ -622,6 +780,7 @@ def run(ctx):
     R._offsets(lib)
     R.tmpdir()
     _OPTS["enum_all"] = True
+    _OPTS["full_overrides"] = ctx.thorough
     _OPTS["size_cap"] = ctx.q(40_000, 50_000_000)
     items = schema_items()
     nedge = len(items)
@@ -641,9 +800,15 @@ def run(ctx):
     ctx.rule = ("A: every schema edge (parent->child, main/default context; frame/replicate/worldbody are parents too) x every "
                 "attribute x value menu (all enum keywords; else first value that loads) on a minimal valid scaffold; "
                 "non-trivial = the setting changes the compiled model or the saved text relative to the scaffold. "
+                "Default-class context: instances of every kind that inherits the class; instance overrides = the global default, "
+                "and for each numeric attribute with >1 component x every arity form as class value: prefix-k / suffix-k shared "
+                "and short-k forms (%s) -- %d override documents, %d further-arity class values. "
                 "B: all forests <=%d bodies x joint menu %s with keyframes, builtin textures, inline mesh, nested defaults, "
                 "frames (+ precision-6 pass, + mj_loadXML/mj_saveLastXML on every 4th, + 6 mjs_attach-built specs). "
-                "C: every shipped model/test XML <= %d bytes that loads here (skips counted by reason)." % (nmax, menu, _OPTS["size_cap"]))
+                "C: every shipped model/test XML <= %d bytes that loads here (skips counted by reason)."
+                % ("every k" if ctx.thorough else "k in {1,n-1} / k=1 / shortest admitted",
+                   sum(ctx.extra.get("component_overrides_" + k, 0) for k in ("prefix", "suffix", "short")),
+                   ctx.extra.get("class_values_of_further_arity", 0), nmax, menu, _OPTS["size_cap"]))
     ctx.assumptions = ["float64 arrays equal to 1e-8 of the array scale (+1e-14 absolute) (quaternion re-normalisation is not idempotent to the last bit; "
                        "counted in ulp_noise_docs / max_noise); integers, float32 arrays and mjVisual bytes exactly",
                        "XML well-formedness and printing are the expat-backed tinyxml2 shim's",
